@@ -20,6 +20,7 @@
 
 #include "TaskScheduler.h"
 #include "LockLessMultiReadPipe.h"
+#include "../../../verif_hooks.h"
 
 #if defined __i386__ || defined __x86_64__
 #include "x86intrin.h"
@@ -253,6 +254,7 @@ bool TaskScheduler::TryRunTask( uint32_t threadNum, uint32_t& hintPipeToCheck_io
 
     if( bHaveTask )
     {
+        RKCOMMON_VERIF_POINT("E_got", subTask.pTask);
         // update hint, will preserve value unless actually got task from another thread.
         hintPipeToCheck_io_ = threadToCheck;
 
@@ -261,14 +263,18 @@ bool TaskScheduler::TryRunTask( uint32_t threadNum, uint32_t& hintPipeToCheck_io
         {
             SubTaskSet taskToRun = SplitTask( subTask, subTask.pTask->m_RangeToRun );
             SplitAndAddTask( threadNum, subTask, subTask.pTask->m_RangeToRun );
+            RKCOMMON_VERIF_POINT("E_exec", taskToRun.pTask);
             taskToRun.pTask->ExecuteRange( taskToRun.partition, threadNum );
+            RKCOMMON_VERIF_POINT("E_dec", taskToRun.pTask);
             AtomicAdd( &taskToRun.pTask->m_RunningCount, -1 );
         }
         else
         {
 
             // the task has already been divided up by AddTaskSetToPipe, so just run it
+            RKCOMMON_VERIF_POINT("E_exec", subTask.pTask);
             subTask.pTask->ExecuteRange( subTask.partition, threadNum );
+            RKCOMMON_VERIF_POINT("E_dec", subTask.pTask);
             AtomicAdd( &subTask.pTask->m_RunningCount, -1 );
         }
     }
@@ -329,8 +335,10 @@ void TaskScheduler::SplitAndAddTask( uint32_t threadNum_, SubTaskSet subTask_, u
 
         // add the partition to the pipe
         AtomicAdd( &subTask_.pTask->m_RunningCount, 1 );
+        RKCOMMON_VERIF_POINT("E_write", subTask_.pTask);
         if( !m_pPipesPerThread[ threadNum_ ].WriterTryWriteFront( taskToAdd ) )
         {
+            RKCOMMON_VERIF_POINT("E_full", subTask_.pTask);
 
             // alter range to run the appropriate fraction (of the partition that
             // was actually cut: it is smaller than rangeToSplit_ at the end of the set)
@@ -402,6 +410,7 @@ void    TaskScheduler::WaitforTask( const ICompletable* pCompletable_ )
     {
         while( pCompletable_->m_RunningCount )
         {
+            RKCOMMON_VERIF_POINT("E_wait", pCompletable_);
             TryRunTask( gtl_threadNum, hintPipeToCheck_io );
             // should add a spin then wait for task completion event.
         }
